@@ -1092,7 +1092,14 @@ func (p *Parser) parseGroupBy(stmt *SelectStatement) error {
 	parenLevel := 0
 	flushItem := func() {
 		if hasGroupBy && currentItem.Len() > 0 {
-			stmt.GroupBy = append(stmt.GroupBy, collapseSpacesOutsideQuotes(currentItem.String()))
+			item := currentItem.String()
+			if n := len(item); n >= 2 && item[0] == '`' && item[n-1] == '`' && !strings.Contains(item[1:n-1], "`") {
+				// A back-quoted column names the field itself (blanks included): group by
+				// that field, not by a field whose name contains the back-quotes.
+				stmt.GroupBy = append(stmt.GroupBy, item[1:n-1])
+			} else {
+				stmt.GroupBy = append(stmt.GroupBy, collapseSpacesOutsideQuotes(item))
+			}
 		}
 		currentItem.Reset()
 	}
